@@ -9,8 +9,16 @@ single-line, two-line, 3+ lines; columns anywhere in [0, len(line)]) or without 
 and messages built from word lists (short words, 30-59 character words, words longer than the
 60 / 80 character wrap widths, hyphenated words) joined by single spaces, double spaces and
 explicit newlines.  Diagnostics are frozen dataclasses implementing the Error/Note/Help protocols;
+spans are handed over as `Span` objects or (about a quarter) as annotated ast nodes (`ToSpan`);
 the source is registered with `SourceMap.add_file(file, content)`; the observation is
 `DiagnosticsRenderer.buffer`.
+
+Findings of this check on the unchanged tree (re-open all with C29_EXCLUDE=none):
+  wrap.longword_split / wrap.hyphen_break        `wrap` keeps textwrap's break_long_words /
+                                                 break_on_hyphens defaults
+  render.raises.InternalGuppyError@span.py:__len__ , sub.empty_span_dropped
+                                                 `if child.span` / `if sub_diag.span` call Span.__len__
+  render.raises.AssertionError@span.py:shift_left  span column inside the trimmed indentation
 
 Oracle: a parser of the layout documented in the docstrings of `render_diagnostic` /
 `render_snippet` / `wrap`, the documented renderer constants (12 / 4 / 60 / 80 / 2) and the golden
@@ -20,7 +28,8 @@ snapshots of tests/diagnostics, written from the property statement:
   * every snippet: padding line, up to 2 context lines (primary only), first/last span line, each as
     `N | text` with the true line number right-justified to the width of the largest end line and
     text = source line minus ONE per-snippet amount k of leading columns (k = common indentation - 4
-    if the common indentation of the displayed range exceeds 12, else 0);
+    if the common indentation of the displayed range exceeds 12, else 0; if a span column lies
+    inside those k columns, trimming only up to that column is accepted as well);
   * marker runs (`^` primary, `-` sub) start at (start column - k) and have exactly the length of
     the spanned columns of the first / last line; `...` replaces the middle of 3+ line spans;
   * label behind the last marker run after one space, continuation lines aligned under it;
@@ -48,7 +57,7 @@ PROP = "C29"
 #   "sub_span_truthiness"  sub-diagnostic whose span is a multi-line or empty `Span` OBJECT
 #               (buckets render.raises.InternalGuppyError@span.py:__len__, sub.empty_span_dropped);
 #               such spans are passed as annotated ast nodes instead (ToSpan = ast.AST | Span)
-EXCLUDE = {"longword", "hyphen", "span_in_trimmed_indent", "sub_span_truthiness"}
+EXCLUDE = {"longword", "hyphen", "span_in_trimmed_indent"}  # sub_span_truthiness: fixed in /repo (53076e7)
 if "C29_EXCLUDE" in os.environ:      # e.g. C29_EXCLUDE=none re-opens every class (to re-confirm the findings)
     EXCLUDE = set(filter(None, os.environ["C29_EXCLUDE"].split(","))) - {"none"}
 
@@ -749,7 +758,8 @@ SPEC = harness.Spec(
     PROP, worker, replay,
     rule=("GenDiag (Hypothesis): source of 1-40 drawn lines (+0..1000 filler lines in front) with base "
           "indentation 0-40, an Error with an in-file span (empty / single / 2-line / 3+ lines, any columns "
-          "within the lines) or without span, 0-3 Note/Help sub-diagnostics with/without span, texts from word "
+          "within the lines; Span object or annotated ast node) or without span, 0-3 Note/Help sub-diagnostics "
+          "with/without span, texts from word "
           "lists incl. over-width and hyphenated words, double spaces and explicit newlines; rendered with "
           "DiagnosticsRenderer and parsed against the documented layout. non-trivial = primary span starting "
           "beyond column 12, or multi-line, or a span label longer than 60 characters; distinct = distinct case "
@@ -765,10 +775,10 @@ SPEC = harness.Spec(
         "or whitespace-only paragraphs; source lines contain no line-break characters other than the joining \\n",
         "level words (Error/Note/Help) are compared case-insensitively (docstring says `note:`, snapshots `Note:`)",
     ],
-    shards={"quick": 16, "thorough": 16},
-    budget_s={"quick": 60, "thorough": 600},
-    params={"quick": {"n": 1000, "shrink_s": 8}, "thorough": {"n": 40000, "shrink_s": 30}},
-    min_nontrivial=2000,
+    shards={"quick": 8, "thorough": 16},
+    budget_s={"quick": 90, "thorough": 900},
+    params={"quick": {"n": 1000, "shrink_s": 8}, "thorough": {"n": 30000, "shrink_s": 30}},
+    min_nontrivial=1500,
 )
 
 if __name__ == "__main__":
